@@ -24,7 +24,7 @@ ID = "C16"
 LEVEL = "fault_enumeration"
 DESIGN_REF = "4.16"
 RULE = (
-    "cases = transport kind (plain fake / StreamTransport on in-memory streams / MQTTClient on a fake aiomqtt client built around aiomqtt's "
+    "cases = transport kind (plain fake whose connect/disconnect yield to the loop, plain fake whose connect/disconnect never suspend / StreamTransport on in-memory streams / MQTTClient on a fake aiomqtt client built around aiomqtt's "
     "real message iterator) x fault (none, connect raises, a hanging connect abandoned by a timeout, body raises, disconnect raises, body+disconnect) x initial file (missing, empty, "
     "generated registry) x body script: mutate the registry (add a node, or change the loaded nodes in place as the message handlers do), then leave the context after k loop iterations (k=0..12: saver not started, inside "
     "open/write/close of the first save, parked in its sleep) or let T seconds of virtual time pass (T in 1, 899, 900, 901, 1800, 5000, "
@@ -42,7 +42,7 @@ ASSUMPTIONS = [
 ]
 DELETABLE = ()
 
-KINDS = ("plain", "stream", "mqtt")
+KINDS = ("plain", "plain-nosuspend", "stream", "mqtt")
 FAULTS = ("none", "connect", "body", "disconnect", "body+disconnect", "connect-timeout")
 FILES = ("missing", "empty", "registry")
 FILE_REGISTRY = {"3": {"node_id": 3, "node_type": 17, "protocol_version": "2.2.0", "sketch_name": "from file", "sketch_version": "1", "battery_level": 50,
@@ -57,7 +57,9 @@ def budgets(tier: str) -> dict:
 
 def enumerate_cases(tier: str):
     for kind, fault, initial in itertools.product(KINDS, FAULTS, FILES):
-        if kind != "plain" and ("disconnect" in fault or fault == "connect-timeout"):
+        if kind == "plain-nosuspend" and fault == "connect-timeout":
+            continue
+        if not kind.startswith("plain") and ("disconnect" in fault or fault == "connect-timeout"):
             continue  # the built-in transports absorb their own disconnect errors; a hanging connect is modelled on the plain kind
         for k in range(0, 13):
             yield {"kind": kind, "fault": fault, "file": initial, "k": k, "T": None, "mutate": True}
@@ -66,6 +68,8 @@ def enumerate_cases(tier: str):
         for T in (1, 899, 900, 901, 1800, 5000):
             for k in (0, 1, 2, 3, 5):
                 yield {"kind": kind, "fault": fault, "file": initial, "k": k, "T": T, "mutate": True}
+                if fault == "none" and T in (1, 901):
+                    yield {"kind": kind, "fault": fault, "file": initial, "k": k, "T": T, "mutate": True, "reenter": True}
                 if initial == "registry":
                     yield {"kind": kind, "fault": fault, "file": initial, "k": k, "T": T, "mutate": "in-place"}
 
@@ -81,7 +85,7 @@ def strategy(tier: str):
             "mutate": st.sampled_from((True, False, "in-place")),
             "reenter": st.booleans(),
         }
-    ).filter(lambda c: c["kind"] == "plain" or ("disconnect" not in c["fault"] and c["fault"] != "connect-timeout"))
+    ).filter(lambda c: c["kind"] == "plain" or (c["kind"] == "plain-nosuspend" and c["fault"] != "connect-timeout") or ("disconnect" not in c["fault"] and c["fault"] != "connect-timeout"))
 
 
 class BodyError(Exception):
@@ -89,13 +93,18 @@ class BodyError(Exception):
 
 
 class PlainTransport(env.RecordingTransport):
-    def __init__(self, fault: str) -> None:
+    """Fake transport; `suspends=False` gives connect/disconnect that never yield to the event loop
+    (then the saver task has not even started when a short body leaves the context)."""
+
+    def __init__(self, fault: str, suspends: bool = True) -> None:
         super().__init__()
         self.fault = fault
+        self.suspends = suspends
 
     async def connect(self) -> None:
         self.connected += 1
-        await asyncio.sleep(0)
+        if self.suspends:
+            await asyncio.sleep(0)
         if self.fault == "connect":
             raise TransportError("injected connect fault")
         if self.fault == "connect-timeout":
@@ -103,7 +112,8 @@ class PlainTransport(env.RecordingTransport):
 
     async def disconnect(self) -> None:
         self.disconnected += 1
-        await asyncio.sleep(0)
+        if self.suspends:
+            await asyncio.sleep(0)
         if "disconnect" in self.fault:
             raise TransportFailedError("injected disconnect fault")
 
@@ -119,21 +129,24 @@ class StreamKind(c03.MemoryStreamTransport):
         self.connected += 1
         if self.fault == "connect":
             raise ConnectionRefusedError("injected connect fault")
-        self.mem_writer = c03._Writer()  # a fresh connection per session
-        pair = await super()._open_connection()
-        orig_close = self.mem_writer.close
-
-        def close() -> None:
-            self.disconnected += 1
-            orig_close()
-
-        self.mem_writer.close = close
+        pair = await super()._open_connection()  # a fresh connection per session
+        self._mems = getattr(self, "_mems", []) + [self.mem]
         return pair
+
+    @property
+    def disconnected(self) -> int:
+        return sum(1 for mem in getattr(self, "_mems", []) if mem.closed_count > 0)
+
+    @disconnected.setter
+    def disconnected(self, value: int) -> None:
+        pass
 
 
 def _make_transport(kind: str, fault: str):
     if kind == "plain":
         return PlainTransport(fault)
+    if kind == "plain-nosuspend":
+        return PlainTransport(fault, suspends=False)
     if kind == "stream":
         return StreamKind(fault)
     from vf.props import c18
@@ -266,7 +279,19 @@ def run_case(case: dict) -> Outcome:
             caught2: BaseException | None = None
             try:
                 async with gateway:
+                    if T is not None:
+                        await asyncio.sleep(1)
+                        state, doc = disk()
+                        if state != "ok" or doc != registry_doc(gateway):
+                            return fail("reenter:no-save-after-entering", f"{where}: one virtual second into the second session the file is {state} {str(doc)[:120]!r}")
                     gateway.nodes[11] = Node(11, 17, "2.1")
+                    for node in gateway.nodes.values():
+                        node.battery_level = 13
+                    if T is not None:
+                        await asyncio.sleep(max(T, 901))
+                        state, doc = disk()
+                        if state != "ok" or doc != registry_doc(gateway):
+                            return fail("reenter:periodic-save-missing", f"{where}: 15 minutes into the second session the change is not on disk: {state} {str(doc)[:160]!r}")
                     for _ in range(k):
                         await asyncio.sleep(0)
                     second_doc = registry_doc(gateway)
